@@ -835,4 +835,19 @@ def swfObject (sig : Sig) (w : Bool) (fs : List (Nat × Nat)) : List SPat → Li
       | none => false) && swfObject sig w fs ps names
 end
 
+/-! the encoding invariant of `SPat.object`: as many field names as sub-patterns (the parser pairs
+them; the driver checks it for every replayed case) -/
+mutual
+def shape : SPat → Bool
+  | .id _ => true
+  | .wild => true
+  | .or ps => shapeL ps
+  | .tuple ps => shapeL ps
+  | .variant _ ps => shapeL ps
+  | .object names ps => decide (names.length = ps.length) && shapeL ps
+def shapeL : List SPat → Bool
+  | [] => true
+  | p :: ps => shape p && shapeL ps
+end
+
 end SamVerif.Useful
